@@ -1,6 +1,6 @@
 /-
 C09 — the gate of `verify_nsec3`, for every input, every hash function, every encoder and every
-combination of repairs `fx` (in particular for the code as it is, `asIs`):
+combination of repairs `fx` (in particular for the code as it is, `current`):
 
 * `iterations_above_hard_bogus`     : some record's iteration count > hard limit  ⇒ `Bogus`
 * `iterations_above_soft_not_secure`: some record's iteration count > soft limit  ⇒ not `Secure`
@@ -189,9 +189,9 @@ private def r0 : Rec :=
     iterations := 101, salt := [], types := [] }
 
 example : ∃ r ∈ [r0], r.iterations > 100 := ⟨r0, by simp, by decide⟩
-example : verifyNsec3 asIs (fun _ => [0]) base32hex ⟨[[122]], true⟩ 1 (some ⟨[[122]], true⟩) 0 none
+example : verifyNsec3 current (fun _ => [0]) base32hex ⟨[[122]], true⟩ 1 (some ⟨[[122]], true⟩) 0 none
     [r0] 100 500 = .insecure := by decide
-example : verifyNsec3 asIs (fun _ => [0]) base32hex ⟨[[122]], true⟩ 1 (some ⟨[[122]], true⟩) 0 none
+example : verifyNsec3 current (fun _ => [0]) base32hex ⟨[[122]], true⟩ 1 (some ⟨[[122]], true⟩) 0 none
     [{ r0 with iterations := 501 }] 100 500 = .bogus := by decide
 
 end HickoryVerif.C09
